@@ -141,6 +141,10 @@ def nd_getitem(ex, arr, key, prefer_vec=False):
     if isinstance(key, Vec) and key.kind == "array" and key.items and all(isinstance(x, bool) or is_sym_bool(x) for x in key.items):
         if all(isinstance(x, bool) for x in key.items) and arr.ndim == 1 and arr.shape[0] == len(key.items):
             return Vec([arr.elem((i,)) for i, x in enumerate(key.items) if x], "array")      # concrete mask: plain selection
+        n0 = as_const(arr.shape[0]) if is_z3(arr.shape[0]) else arr.shape[0]
+        if all(isinstance(x, bool) for x in key.items) and arr.ndim > 1 and n0 == len(key.items):
+            # concrete mask on the first axis of a higher-rank array: the selected rows
+            return nd_getitem(ex, arr, Vec([i for i, x in enumerate(key.items) if x], "array"), prefer_vec)
         raise Unsupported("boolean Vec index")
     if isinstance(key, MaskedSel):
         raise Unsupported("index by masked selection")
